@@ -116,11 +116,40 @@ def n_workers():
 _WORK_FN = None
 
 
+CURRENT_PROP = None
+
+
+def _raised_in_library(e):
+    """Innermost traceback frame that lies in the library under test, or None."""
+    tb = e.__traceback__
+    hit = None
+    while tb is not None:
+        fn = os.path.abspath(tb.tb_frame.f_code.co_filename)
+        if fn.startswith(os.path.abspath(SRC) + os.sep):
+            hit = (os.path.relpath(fn, SRC), tb.tb_frame.f_code.co_name, tb.tb_lineno)
+        tb = tb.tb_next
+    return hit
+
+
 def _call_chunk(chunk):
     try:
         return ('ok', _WORK_FN(chunk))
-    except BaseException as e:  # shipped to the parent as a harness error
+    except HarnessError as e:
         return ('err', ''.join(traceback.format_exception(type(e), e, e.__traceback__)))
+    except BaseException as e:
+        where = _raised_in_library(e) if isinstance(e, Exception) else None
+        text = ''.join(traceback.format_exception(type(e), e, e.__traceback__))
+        if where is not None and CURRENT_PROP:
+            # an exception that escaped from pjplan's own code while the check exercised an input of the property's domain
+            # (every deliberately illegal call is wrapped by the check itself): the property cannot hold there.
+            # The rest of this chunk is lost; the verdict is a violation, not a harness error.
+            acc = Acc()
+            acc.violation(CURRENT_PROP, f'library-exception/{type(e).__name__}/{where[0]}:{where[1]}',
+                          f'{type(e).__name__}: {e} raised in {where[0]}:{where[2]} ({where[1]}) and not handled by the library',
+                          {'traceback': text[-1500:], 'chunk': repr(chunk)[:300]})
+            acc.count('chunks_aborted_by_library_exception')
+            return ('ok', acc)
+        return ('err', text)
 
 
 def pmap(fn, chunks, workers=None):
@@ -188,6 +217,8 @@ class Report:
     """Collects what a property run found and turns it into stdout lines, evidence and an exit code."""
 
     def __init__(self, prop, tier, seed, level):
+        global CURRENT_PROP
+        CURRENT_PROP = prop
         self.prop = prop
         self.tier = tier
         self.seed = seed
